@@ -28,6 +28,8 @@ META = {
 META['explanation'] += ' ' + 'R4: no function between the wire bytes of a hello and ja3 writes class level state, memo tables included. R5: extension parsers reject only what the specification prescribes (a refused extension silently becomes an unparsed one and leaves the ja3 sections).'
 
 META['explanation'] += ' ' + 'R7: the decoders behind the sections (generic and overriding) hand out the member whose code is on the wire (shared with C10.R2).'
+
+META['explanation'] += ' ' + 'R8: hello and extension attributes are composed as stored (shared with C01.R2).'
 HERE = os.path.dirname(os.path.dirname(os.path.abspath(__file__)))
 
 
